@@ -112,6 +112,23 @@ func Assume(c bool) {
 	}
 }
 
+// AssumeEq assumes a == b: exactly in the exact-real reading (where it states a
+// mathematical lemma), up to tol*(1+|b|) natively (where both sides carry
+// floating-point rounding).
+func AssumeEq(a, b, tol float64) {
+	d := a - b
+	if d < 0 {
+		d = -d
+	}
+	m := b
+	if m < 0 {
+		m = -m
+	}
+	if !(d <= tol*(1+m)) {
+		panic(abort{"spurious", "assumed lemma does not hold numerically"})
+	}
+}
+
 // Assert states the property.
 func Assert(c bool, msg string) {
 	if !c {
